@@ -35,7 +35,7 @@ var shimFor = map[string][2]string{
 }
 
 type stats struct {
-	Files, Imports, GoStmts, Sends, Recvs, Makes, Closes, Selects, Ranges int
+	Files, Imports, GoStmts, Sends, Recvs, Makes, Closes, Selects, Ranges, MapRanges int
 }
 
 var st stats
@@ -345,8 +345,49 @@ func (r *rewriter) post(c *astutil.Cursor) bool {
 		if r.isChan(s.X) {
 			c.Replace(r.rewriteRange(s))
 			st.Ranges++
+		} else if r.isMap(s.X) && r.rewriteMapRange(s) {
+			st.MapRanges++
 		}
 	}
+	return true
+}
+
+func (r *rewriter) isMap(e ast.Expr) bool {
+	tv, ok := r.pkg.TypesInfo.Types[e]
+	if !ok || tv.Type == nil {
+		return false
+	}
+	_, ism := tv.Type.Underlying().(*types.Map)
+	return ism
+}
+
+func isBlank(e ast.Expr) bool {
+	id, ok := e.(*ast.Ident)
+	return e == nil || (ok && id.Name == "_")
+}
+
+// for k, v := range m { body }  =>  for _, _ve := range verifrt.MapEntries(m) { k, v := _ve.K, _ve.V; body }
+// Go randomises the iteration order of maps; under the controlled scheduler the order has to be a function
+// of the map's contents (sorted keys), otherwise the sequence of scheduling points of a replayed schedule
+// changes from run to run. The statement is changed in place, so that labels stay attached to it.
+func (r *rewriter) rewriteMapRange(s *ast.RangeStmt) bool {
+	if isBlank(s.Key) && isBlank(s.Value) {
+		return false // only the number of iterations matters
+	}
+	e := r.fresh("e")
+	var lhs, rhs []ast.Expr
+	if !isBlank(s.Key) {
+		lhs = append(lhs, s.Key)
+		rhs = append(rhs, &ast.SelectorExpr{X: e, Sel: ast.NewIdent("K")})
+	}
+	if !isBlank(s.Value) {
+		lhs = append(lhs, s.Value)
+		rhs = append(rhs, &ast.SelectorExpr{X: e, Sel: ast.NewIdent("V")})
+	}
+	head := &ast.AssignStmt{Lhs: lhs, Tok: s.Tok, Rhs: rhs}
+	s.X = &ast.CallExpr{Fun: r.rt("MapEntries"), Args: []ast.Expr{s.X}}
+	s.Key, s.Value, s.Tok = ast.NewIdent("_"), e, token.DEFINE
+	s.Body.List = append([]ast.Stmt{head}, s.Body.List...)
 	return true
 }
 
